@@ -172,6 +172,8 @@ class FakeS3Client:
             o = self.store.bucket(Bucket).get(Key)
             if o is None:
                 raise client_error("NoSuchKey", "GetObject", 404)
+            if kw.get("IfMatch") is not None and kw["IfMatch"] != o.etag:
+                raise client_error("PreconditionFailed", "GetObject", 412)
             data = o.body
             if Range is not None:
                 assert Range.startswith("bytes=")
